@@ -113,7 +113,7 @@ var c13InvalB = []struct {
 }
 
 func C13(rep *ev.Reporter, tier string) {
-	bud := NewBudget(50 * time.Second)
+	bud := NewBudget(150 * time.Second)
 	maxCycle := uint64(8)
 	n3 := 12
 	maxRules := 3
